@@ -390,8 +390,8 @@ isotopic_masses = {
     70: 173.938858,
     71: 174.940768,
     72: 179.946549,
-    73: 183.950933,
-    74: 186.955751,
+    73: 180.947996,
+    74: 183.950933,
     75: 186.955751,
     76: 191.961479,
     77: 192.962924,
